@@ -11,20 +11,25 @@ Definition svd_eq (tol2 : Qc) (m n : nat) (o : svdout (R:=qi)) (k : nat) (U : li
   Nat.eqb (sk o) k && mat_close tol2 m k (sU o) U && vec_close tol2 k (sS o) s && mat_close tol2 n k (sV o) V.
 
 Inductive srule :=
-| SRDense (r : nat) (U : list (list qi)) (s : list qi) (V : list (list qi))                 (* LAPACK svd output *)
+| SRDense (ksl : option (Z * which)) (r : nat) (U : list (list qi)) (s : list qi) (V : list (list qi))   (* LAPACK svd output; Some (k, which) = repaired rule (sliced) *)
 | SRLanczos (tall : bool) (q : nat) (A : list (list qi)) (lam : list qi) (W : list (list qi)) (sqrt_tab : list (qi * qi)) (k : Z) (wh : which)
-| SRIdent
-| SRDiag (d : list qi).
+| SRIdent (ksl : option (Z * which))
+| SRDiag (d : list qi)
+| SRDiagSigned (idx : list nat) (ab ph : list qi).    (* repaired Diagonal rule: oracle data |d|, d/|d| and the kept positions *)
 Record scase := mkscase { sm : nat; sn : nat; srl : srule; stol2 : Qc;
                           srk : nat; srU : list (list qi); srS : list qi; srV : list (list qi) }.
 Definition run_scase (c : scase) : option (svdout (R:=qi)) :=
   match srl c with
-  | SRDense r U s V => Some (svd_dense qi_leb r (matl U) (vecl s) (matl V))
+  | SRDense None r U s V => Some (svd_dense qi_leb r (matl U) (vecl s) (matl V))
+  | SRDense (Some (k, wh)) r U s V => svd_dense_k qi_leb r (matl U) (vecl s) (matl V) k wh
   | SRLanczos tall q A lam W tab k wh =>   (* tall: A^H A is decomposed (Lanczos with n <= m; LOBPCG always) *)
       if tall then svd_lanczos_tall (sm c) (sn c) q (matl A) (vecl lam) (matl W) (flook tab) k wh
       else svd_lanczos_wide (sm c) (sn c) q (matl A) (vecl lam) (matl W) (flook tab) k wh
-  | SRIdent => Some (svd_ident (sn c))
+  | SRIdent None => Some (svd_ident (sn c))
+  | SRIdent (Some (k, wh)) => svd_ident_k (sn c) k wh
   | SRDiag d => Some (svd_diag (sn c) (vecl d))
+  | SRDiagSigned idx ab ph =>
+      if forallb (fun x => (x <? sn c)%nat) idx && nodupb idx then Some (svd_diag_signed idx (vecl ab) (vecl ph)) else None
   end.
 Definition check_scase (c : scase) : bool :=
   match run_scase c with
@@ -62,10 +67,21 @@ Theorem svd_diag_negative_refuted :
   let o := svd_diag 2 (vecl [qz (-1); qz 2]) in
   qi_eqb (sS o 0%nat) (qz (-1)) = true /\ qle (fst (sS o 0%nat)) 0%Qc = true /\ qle 0%Qc (fst (sS o 0%nat)) = false.
 Proof. cbn zeta. repeat split; vm_compute; reflexivity. Qed.
+(* the repaired rule on the same input: Sigma = |d| = (1, 2), the sign goes into U *)
+Theorem svd_diag_signed_repaired :
+  let o := svd_diag_signed [0%nat; 1%nat] (vecl [qz 1; qz 2]) (vecl [qz (-1); qz 1]) in
+  qi_eqb (sS o 0%nat) (qz 1) = true /\ qi_eqb (sU o 0%nat 0%nat) (qz (-1)) = true /\
+  feqb 2 2 (fun i j => sum 2 (fun l => qimul (qimul (sU o i l) (sS o l)) (qiconj (sV o j l)))) (dg (vecl [qz (-1); qz 2])) = true.
+Proof. cbn zeta. repeat split; vm_compute; reflexivity. Qed.
 (* DenseSVD ignores k: it always returns all min(m,n) triplets *)
 Theorem svd_dense_k_ignored_refuted :
   let o := svd_dense qi_leb 2 eye (vecl [qz 1; qz 2]) eye in sk o = 2%nat.
 Proof. reflexivity. Qed.
+
+(* the repaired dense rule returns the k requested triplets *)
+Theorem svd_dense_k_repaired :
+  exists o, svd_dense_k qi_leb 2 eye (vecl [qz 1; qz 2]) eye 1 LM = Some o /\ sk o = 1%nat /\ qi_eqb (sS o 0%nat) (qz 2) = true.
+Proof. eexists. split; [reflexivity|]. split; [reflexivity|vm_compute; reflexivity]. Qed.
 
 (* satisfiable hypotheses: a 2x2 permutation matrix and its inverse by argsort *)
 Example pinv_perm_example : feqb 3 3 (mmul 3 (fun i j => delta (nth i [2;0;1]%nat 0%nat) j) (pinv_perm (inv_perm 3 [2;0;1]%nat))) eye = true.
